@@ -1,0 +1,16 @@
+//go:build verif
+
+package ech
+
+import "time"
+
+// VerifSetClock replaces the clock used by the resolver cache. It only exists
+// in builds with the "verif" tag (verification harness); f == nil restores
+// time.Now.
+func VerifSetClock(f func() time.Time) {
+	if f == nil {
+		timeNow = time.Now
+		return
+	}
+	timeNow = f
+}
